@@ -6,6 +6,18 @@ ALL = ["C%02d" % i for i in range(1, 21)]
 
 # id -> (engine, level, technique, text, note, design_ref)
 CHECKS = {
+ "C09": ("mc-seq", "exploration",
+   "exhaustive enumeration of source families (sizes x reception-time tuples x start indices x constructors) on the real merge / chain iterators",
+   "Every family of <= 3-5 sources with <= 2-4 messages and all reception-time tuples over a small grid (equal, increasing, unordered), through all five constructors (merge, merge-or-single, chain, chain-or-single with exact and inexact size hints), Vec-backed and real DltMessageIterator-backed, merge-of-chains as adlt convert builds it, every placement of empty sources, and (in a subprocess) chains of up to 10^4 (quick) / 10^6 (thorough) empty sources. Oracle: multiset equality, per-source order, consecutive indices from the start index, reception-time order when every source is ordered, chain = concatenation.",
+   "Trusted: harness tags in payloads. The documented single-source shortcut (own indices) is judged by its documentation.", "4 C09"),
+ "C10": ("mc-seq", "exploration",
+   "exhaustive enumeration of message streams x lifecycle tables x windows x minimum delays on the real buffer_sort_messages, cases classified by the property's premise",
+   "All streams up to length 2-6 over per-family alphabets (lifecycle id incl. unknown, reception step incl. -1 s, absolute timestamps or lateness grid bracketing the minimum delays, normal/control request) x windows {1,3,255} (edges 1-4) x minimum delays {0,1 s,20 s} x 4 lifecycle tables, plus deviation-bounded long streams. O1 on every case: output is a permutation of the input (full message equality). O2 on the cases the generator classifies as satisfying the premise: stable order by (calculated time, original position). Every case is counted in exactly one class (premise holds / reception decreases / delay above minimum / undefined for unknown lifecycle).",
+   "Trusted: harness-side calculated-time model. Not covered: a lifecycle table changing while sorting, window size 0.", "4 C10"),
+ "C19": ("mc-seq", "exploration",
+   "exhaustive enumeration of ordered plugin subsets x message pool / tuples / payload prefixes on the real plugin chain; id-population sweep and lifecycle-stream families through the real anonymiser + detector",
+   "All 326 ordered subsets of {NonVerbose, SomeIp, CAN, Muniic, Rewrite} (configured from the repository's FIBEX/JSON files) x an 82-template message pool (hits, near misses, truncated, cross-plugin), all ordered pairs and stateful-group tuples, every payload prefix of 18 targets, file-transfer sub-streams x 8 configs: same count and order, index/reception time/ECU/payload/lifecycle/standard header untouched, only text / a missing extended header / (Rewrite) the timestamp may change, only FLDA packages may be dropped. Anonymiser: populations 1..999 per dimension (functional + injective maps, times untouched) and every lifecycle-explorer stream to depth 3/4 (+ written-and-reparsed and decorated variants): canonical lifecycle table and per-message assignment identical before and after.",
+   "Trusted: harness-side FLDA recogniser and canonicalisation. Pseudonym scope judged per ECU / per ECU+APID (the scheme's counters); capacity bound 999 stated, beyond it not judged.", "4 C19"),
  "C20": ("mc-seq", "model_checking",
    "stateless exhaustive exploration of read/seek operation sequences on the real SeekableChain against std::io::Cursor; exhaustive archive/pattern/sandbox product on the real extraction code",
    "Chain: every split of a byte string of length <= 6 into <= 3 volumes (empty ones included; in-memory, 1-byte-read and real-file volumes) x every sequence of read/seek operations up to depth 4 (quick) / 5-6 (thorough), each on a fresh chain, compared with a Cursor over the concatenation (sequences the reference rejects are counted and excluded). Extraction: hand-written zip containers with hostile member names (.., absolute, aliases, duplicates, empty, directory entries, > 64 KiB) x glob patterns x pre-existing foreign files x extract_archives / extract_to_dir, every multi-volume cut, and a skipped-member size sweep past the zip reader's EOCD window; each case in its own sandbox that is snapshotted before and after: nothing created/modified outside, contents identical, reported set = matching members whose names stay inside.",
